@@ -59,6 +59,9 @@ ObjItems.__name__ = 'Obj'
 ObjItems.__qualname__ = 'Obj'
 
 
+CURRENT_LIBS = []
+
+
 def pyval(spec, tab, rec=None):
     if spec is None or isinstance(spec, (bool, int)):
         return spec
@@ -82,6 +85,9 @@ def pyval(spec, tab, rec=None):
         return Markup(spec['markup'])
     if 'fn' in spec:
         return rec
+    if 'template' in spec:
+        # library template k (1-based) of the case being run: pipeline.run_impl builds them first
+        return CURRENT_LIBS[spec['template'] - 1]
     if 'dflt' in spec:
         from chameleon.zpt.template import PageTemplate
         return PageTemplate.default_marker.value if hasattr(PageTemplate.default_marker, 'value') else None
